@@ -39,11 +39,11 @@ Fixpoint ideal_render (ne neg : bool) (c : ctree) {struct c} : outcome str :=
                    (fun ss => Ok (join s_or ss))
   end.
 
-Definition ideal_cond (E : env) (ne : bool) (dets : list (str * list ditem)) (k : str) : outcome str :=
+Definition ideal_cond (E : env) (ne : bool) (dets : list (str * list ditem)) (fin : str -> outcome str) (k : str) : outcome str :=
   if mem c_pipe k then SigmaErr E_Condition else
   match e_parse E k with
   | None => SigmaErr E_Condition
-  | Some t => obind (resolve dets t) (ideal_render ne false)
+  | Some t => obind (obind (resolve dets t) (ideal_render ne false)) fin
   end.
 
 (* one rule: pipeline built for format lfmt, query finalised for format fmt *)
@@ -52,7 +52,7 @@ Definition ideal_rule (E : env) (cls : N) (user : option N) (opts : list (str * 
   let '(ps, res) := ideal_items E (init_vars E cls user opts lfmt) ps0 r (pipe_defs E cls user lfmt) in
   match res with
   | inr e => (ps, SigmaErr e)
-  | inl r' => (ps, obind (omap (ideal_cond E (e_ne E cls) (r_dets r')) (r_conds r'))
+  | inl r' => (ps, obind (omap (ideal_cond E (e_ne E cls) (r_dets r') (finish_query E cls (ps_state ps))) (r_conds r'))
                          (fun l => Ok (map (finalize fmt (ps_state ps) r') l)))
   end.
 
